@@ -810,8 +810,9 @@ class Summarizer:
             v = UNIT
         # drop the frame's cells
         fid = fr.fid
-        for c in [c for c in st.cells if c[0] == fid]:
-            del st.cells[c]
+        if fr.promoted_of is None:
+            for c in [c for c in st.cells if c[0] == fid]:
+                del st.cells[c]
         st.frames.pop()
         if not st.frames:
             st.done = ('ret', v)
